@@ -22,3 +22,18 @@ Theorem c02_canon_not_complete :
   topo_b ex_twoA = true /\ topo_b ex_twoB = true /\ canon ex_twoA = canon ex_twoB /\ ~ Iso ex_twoA ex_twoB.
 Proof. exact canon_not_complete. Qed.
 Print Assumptions c02_canon_not_complete.
+
+From V Require Import Puml.ExecRel Puml.ExecRelProofs Puml.Check Puml.CheckProofs.
+Theorem c02_incl_b_rel : forall k1 k2 d1 d2, incl_b k1 k2 d1 d2 = true <-> InclCanon k1 k2 d1 d2.
+Proof. exact incl_b_rel. Qed.
+Print Assumptions c02_incl_b_rel.
+
+Theorem c02_incl_adaptive_sound : forall kmax cap k1 d1 d2,
+  incl_adaptive kmax cap k1 d1 d2 = ([], []) ->
+  forall g1, In g1 (jobs k1 d1) -> exists k2 g2, In g2 (jobs k2 d2) /\ canon g2 = canon g1.
+Proof. exact incl_adaptive_sound. Qed.
+Print Assumptions c02_incl_adaptive_sound.
+
+Theorem c02_jobs_mono : forall k k' d, k <= k' -> incl (jobs k d) (jobs k' d).
+Proof. exact jobs_mono. Qed.
+Print Assumptions c02_jobs_mono.
